@@ -150,6 +150,19 @@ fn main() {
     }
     let mut ctx = Ctx::new(&prop, tier, seed, level_of(&prop));
     ctx.replay_filter = replay_sig;
+    // the context lives for the whole process so that the global watchdog below can close the run
+    let ctx: &'static Ctx = Box::leak(Box::new(ctx));
+    // Global wall-clock watchdog (generous: 40 min quick, 6 h thorough). A monitor that is stuck - on a
+    // child that never answers, a FIFO nobody opens, a lock - must end the run as INCONCLUSIVE with what was
+    // observed so far (violations already recorded are still reported), never hang the caller.
+    if !args.iter().any(|a| a == "--child") {
+        let limit = std::env::var("VERIF_WATCHDOG_S").ok().and_then(|s| s.parse::<u64>().ok()).unwrap_or(tier.pick(2400, 21600));
+        std::thread::spawn(move || {
+            std::thread::sleep(std::time::Duration::from_secs(limit));
+            ctx.inconclusive(&format!("global watchdog fired after {} s: the monitor did not finish (stuck lane); verdict covers only what had been observed", limit));
+            std::process::exit(ctx.finish());
+        });
+    }
 
     if let Err(e) = refspec::selftest().and_then(|_| refspec::selftest_fixtures()) {
         ctx.inconclusive(&format!("oracle self-test failed: {}", e));
@@ -159,7 +172,7 @@ fn main() {
     // a bug in a monitor must never look like a verdict: a panic outside the guarded calls is reported
     // as inconclusive, with its message
     let is_child = args.iter().any(|a| a == "--child");
-    let body = std::panic::catch_unwind(std::panic::AssertUnwindSafe(|| run_property(&prop, &ctx)));
+    let body = std::panic::catch_unwind(std::panic::AssertUnwindSafe(|| run_property(&prop, ctx)));
     if is_child {
         if let Err(e) = &body {
             let msg = e.downcast_ref::<&str>().map(|s| s.to_string()).or_else(|| e.downcast_ref::<String>().cloned()).unwrap_or_default();
